@@ -84,12 +84,17 @@ pub fn project_dirs() -> Vec<PathBuf> {
 }
 
 fn run_one(bin_dir: &Path, tool: &str, target: &Path, extra: bool, kind_hint: &str, w: &mut Worker, scratch: &Path, out: &mut Vec<Value>, n: usize) {
+    run_pre(bin_dir, tool, target, extra, kind_hint, w, scratch, out, n, (n / 3) % 3)
+}
+
+#[allow(clippy::too_many_arguments)]
+fn run_pre(bin_dir: &Path, tool: &str, target: &Path, extra: bool, kind_hint: &str, w: &mut Worker, scratch: &Path, out: &mut Vec<Value>, n: usize, pre: usize) {
     let outfile = scratch.join(format!("thor_out_{}.json", n));
     let _ = std::fs::remove_file(&outfile);
     // the file named with -o may exist already (an earlier export): longer than the new document, shorter, or absent
     let mut preexisting = "none";
-    if tool == "thor" && kind_hint != "noproject" {
-        match (n / 3) % 3 {
+    if tool == "thor" {
+        match pre {
             0 => {
                 let mut old = String::from("{\"meta\": {\"name\": \"exportacion anterior\"}, \"relleno\": \"");
                 old.push_str(&"x".repeat(3_000_000));
@@ -143,8 +148,10 @@ fn run_one(bin_dir: &Path, tool: &str, target: &Path, extra: bool, kind_hint: &s
     }
     if outfile.exists() {
         let text = std::fs::read_to_string(&outfile).unwrap_or_default();
+        // an earlier export that this run left as it was is not an output of this run
+        let untouched = preexisting != "none" && ((preexisting == "shorter" && text == "{}\n") || (preexisting == "longer" && text.len() > 3_000_000 && text.contains("exportacion anterior")));
         let is_model = Model::from_json(&text).is_ok() && text.trim_start().starts_with('{');
-        out.push(json!({"ev": "OutFile", "kind": if is_model { "json" } else { "other" }, "equal": lib_ok && same_model(&text, &lib_json, &lib_debug), "bytes": text.len()}));
+        out.push(json!({"ev": "OutFile", "kind": if is_model { "json" } else { "other" }, "equal": lib_ok && same_model(&text, &lib_json, &lib_debug), "bytes": text.len(), "untouched": untouched}));
         let _ = std::fs::remove_file(&outfile);
     }
     out.push(json!({"ev": "Exit", "code": code}));
@@ -191,13 +198,18 @@ pub fn main_cli(args: &Args) {
             run_one(&bin_dir, "hulc2model", d, extra, "noproject", &mut w, &scratch, &mut out, n);
             n += 1;
         }
-        run_one(&bin_dir, "thor", d, false, "noproject", &mut w, &scratch, &mut out, n);
-        n += 1;
+        // (whatever an earlier export left under the name given with -o)
+        for pre in 0..3 {
+            run_pre(&bin_dir, "thor", d, false, "noproject", &mut w, &scratch, &mut out, n, pre);
+            n += 1;
+        }
     }
     run_one(&bin_dir, "hulc2model", &broken, false, "project", &mut w, &scratch, &mut out, n);
     n += 1;
-    run_one(&bin_dir, "thor", &broken, false, "project", &mut w, &scratch, &mut out, n);
-    n += 1;
+    for pre in 0..3 {
+        run_pre(&bin_dir, "thor", &broken, false, "project", &mut w, &scratch, &mut out, n, pre);
+        n += 1;
+    }
     write_lines(&out_path, &out.iter().map(|e| e.to_string()).collect::<Vec<_>>());
     println!("{}", json!({"runs": n, "traces": n, "events": out.len(), "out": out_path}));
 }
